@@ -69,7 +69,8 @@ type App struct {
 	modSvcProvider sdk.AccAddress
 
 	// mutable per-history hooks used by the registered callbacks
-	cur *World
+	cur     *World
+	startAt int64 // height at which the next history starts
 }
 
 // NewApp builds a fresh chain (real bank/auth/params keepers, IAVL store) and
@@ -140,6 +141,8 @@ type World struct {
 	height  int64
 	now     time.Time
 	txSeq   uint64
+	lastTx  []byte
+	lastIdx int64
 	params  types.Params
 	cbLog   []CallbackRec
 	modSvcBehaviour ModSvcBehaviour
@@ -167,7 +170,10 @@ func (w *World) rawContext(ctx sdk.Context, id []byte) (types.RequestContext, bo
 // NewWorld starts a history on a fresh branch of the post-genesis state.
 func (a *App) NewWorld(params types.Params) *World {
 	ctx, _ := a.baseCtx.CacheContext()
-	w := &World{a: a, ctx: ctx, height: startHeight, now: genesisTime, params: params,
+	if a.startAt == 0 {
+		a.startAt = startHeight
+	}
+	w := &World{a: a, ctx: ctx, height: a.startAt, now: genesisTime, params: params,
 		tracked: map[string]string{}, actors: map[string]sdk.AccAddress{}}
 	a.cur = w
 	a.k.SetParams(w.ctx, params)
@@ -311,17 +317,30 @@ func (w *World) nextTxHash() []byte {
 }
 
 // DeliverMsg does what baseapp.runMsgs does for one message.
-func (w *World) DeliverMsg(msg sdk.Msg) (res StepResult) {
+func (w *World) DeliverMsg(msg sdk.Msg) (res StepResult) { return w.DeliverMsgTx(msg, false) }
+
+// DeliverMsgTx: with sameTx the message is the next one of the previous message's
+// transaction (same tx hash, next message index).
+func (w *World) DeliverMsgTx(msg sdk.Msg, sameTx bool) (res StepResult) {
 	w.cbLog = nil
 	if err := msg.ValidateBasic(); err != nil {
 		res.Rejected = true
 		res.Err = err.Error()
 		return
 	}
-	txHash := w.nextTxHash()
+	var txHash []byte
+	msgIdx := int64(0)
+	if sameTx && w.lastTx != nil {
+		// hand the module a slice with spare capacity, as a host application may
+		txHash = append(make([]byte, 0, 64), w.lastTx...)
+		msgIdx = w.lastIdx + 1
+	} else {
+		txHash = w.nextTxHash()
+	}
+	w.lastTx, w.lastIdx = append([]byte(nil), txHash...), msgIdx
 	cctx, write := w.curCtx().CacheContext()
 	cctx = cctx.WithEventManager(sdk.NewEventManager())
-	cctx = cctx.WithValue(types.TxHash, txHash).WithValue(types.MsgIndex, int64(0))
+	cctx = cctx.WithValue(types.TxHash, txHash).WithValue(types.MsgIndex, msgIdx)
 	t0 := time.Now()
 	func() {
 		defer func() {
@@ -352,7 +371,9 @@ func (w *World) DeliverMsg(msg sdk.Msg) (res StepResult) {
 		write()
 		res.Callbacks = w.cbLog
 		if _, ok := msg.(*types.MsgCallService); ok {
-			res.NewCtxID = hexs(types.GenerateRequestContextID(append([]byte(nil), txHash...), 0))
+			id := append(append([]byte(nil), w.lastTx...), make([]byte, 8)...)
+			binary.BigEndian.PutUint64(id[len(w.lastTx):], uint64(msgIdx))
+			res.NewCtxID = hexs(id)
 		}
 	}
 	w.cbLog = nil
